@@ -37,6 +37,9 @@ def run(R: vlib.Run):
                   "dispatch by name in io/bits.py is mirrored by hand in Proofs/C03_bits.v (unpack_run/pack_run) and tied by the correspondence run",
                   "correspondence harness tools/harness/props/c03.py"]
     R.assume += ["numba compiles the kernels according to their Python text", "argument validation in bits.py is checked by differential testing only"]
+    R.assume += ["output buffers handed to unpack / pack are writable C-contiguous 1-D uint8 arrays (another dtype or layout is refused by numba with TypeError, not ValueError)",
+                 "pack is given a whole number of bytes' worth of samples (len % (8/nbits) == 0; a ragged tail is silently dropped)",
+                 "nbits and bitorder are an int and a str (2.0 or a list pass the validation by Python's equality rules)"]
     R.prove("Props/C03.v")
 
     rng = R.rng
@@ -49,8 +52,8 @@ def run(R: vlib.Run):
             # all 256 bytes in one array, and each alone
             inputs = [list(range(256))] + [[b] for b in range(256)]
             # arrays of every length 0..nmax, random content incl. values >= 128
-            for n in list(range(0, 17)) + [rng.randrange(17, nmax + 1) for _ in range(6)]:
-                inputs.append([rng.choice([0, 255, 128, 127, rng.randrange(256)]) for _ in range(n)])
+            for n in range(0, nmax + 1):      # every length 0..nmax
+                inputs.append([rng.choice([0, 255, 128, 127, rng.randrange(256), rng.randrange(256)]) for _ in range(n)])
             for inp in inputs:
                 a = np.array(inp, dtype=np.uint8)
                 try:
@@ -79,7 +82,7 @@ def run(R: vlib.Run):
                            {"nbits": nbits, "order": oname, "in": inp, "got": list(map(int, back))})
                 if len(inp) <= 64:
                     ucases.append((nbits, big, inp, list(map(int, out))))
-                if len(inp) in (1, 3):
+                if len(inp) <= 40:
                     held.append(("unpack", nbits, oname, inp, out, exp))
             # pack: all in-range tuples of one byte + random arrays
             tuples = []
@@ -91,7 +94,7 @@ def run(R: vlib.Run):
                     rec(pref + [v])
             rec([])
             pinputs = tuples + [sum(tuples, [])]
-            for n in (0, 1, 2, 3, 5, 9, rng.randrange(10, nmax // 2 + 2)):
+            for n in range(0, nmax // 2 + 2):      # every output length 0..nmax/2+1
                 pinputs.append([rng.randrange(lim) for _ in range(n * bf)])
             for inp in pinputs:
                 v = np.array(inp, dtype=np.uint8)
@@ -106,11 +109,14 @@ def run(R: vlib.Run):
                            {"nbits": nbits, "order": oname, "in": inp})
                     continue
                 exp = [byte_of(inp[i * bf:(i + 1) * bf], nbits, big) for i in range(len(inp) // bf)]
-                if len(inp) == bf:
-                    held.append(("pack", nbits, oname, inp, out, [byte_of(inp, nbits, big)]))
+                if len(inp) <= 40 * bf:
+                    held.append(("pack", nbits, oname, inp, out, [byte_of(inp[i * bf:(i + 1) * bf], nbits, big) for i in range(len(inp) // bf)]))
                 key = ("p", nbits, oname, tuple(inp))
                 R.case(key, nontrivial=len(inp) > 0, regime=f"pack{nbits}_{oname}",
                        sample={"op": "pack", "nbits": nbits, "order": oname, "in": inp[:16], "out": [int(x) for x in out[:4]]} if len(inp) == 2 * bf else None)
+                if out.dtype != np.uint8 or out2 is not pbuf:
+                    R.fail(f"pack{nbits}_{oname}_buffer", "pack does not return uint8 / does not fill and return the caller's buffer",
+                           {"nbits": nbits, "order": oname, "in": inp, "dtype": str(out.dtype), "returned_is_buffer": out2 is pbuf})
                 if list(map(int, out)) != exp or list(map(int, out2)) != exp:
                     R.fail(f"pack{nbits}_{oname}", "pack differs from the bit-field definition",
                            {"nbits": nbits, "order": oname, "in": inp, "got": list(map(int, out)), "expected": exp})
@@ -145,13 +151,19 @@ def run(R: vlib.Run):
     # every wrong buffer size around the right one (under- and over-sized by less than, exactly, and more than one byte's worth)
     for nb in (1, 2, 4):
         bf = 8 // nb
-        for nbytes in (1, 4):
+        for nbytes in (0, 1, 4):
             for sz in range(0, 2 * nbytes * bf + 3):
                 if sz != nbytes * bf:
                     bad.append((f"unpack{nb}-bufsize-{nbytes}x{bf}-got{sz}", lambda nb=nb, nbytes=nbytes, sz=sz: bits.unpack(np.zeros(nbytes, dtype=np.uint8), nb, np.zeros(sz, dtype=np.uint8))))
             for sz in range(0, 2 * nbytes + 3):
                 if sz != nbytes:
                     bad.append((f"pack{nb}-bufsize-{nbytes}-got{sz}", lambda nb=nb, nbytes=nbytes, sz=sz, bf=bf: bits.pack(np.zeros(nbytes * bf, dtype=np.uint8), nb, np.zeros(sz, dtype=np.uint8))))
+    for nbad in (0, -1, 5, 6, 7, 32, 64):
+        bad.append((f"unpack-nbits{nbad}", lambda nbad=nbad: bits.unpack(np.zeros(4, dtype=np.uint8), nbad)))
+        bad.append((f"pack-nbits{nbad}", lambda nbad=nbad: bits.pack(np.zeros(8, dtype=np.uint8), nbad)))
+    for dtb in (np.int8, np.uint16, np.float32, np.bool_):
+        bad.append((f"unpack-dtype-{np.dtype(dtb).name}", lambda dtb=dtb: bits.unpack(np.zeros(4, dtype=dtb), 2)))
+        bad.append((f"pack-dtype-{np.dtype(dtb).name}", lambda dtb=dtb: bits.pack(np.zeros(8, dtype=dtb), 2)))
     # bit-order spellings: io/bits.py accepts exactly the strings whose first character is a lower-case 'b' or 'l';
     # every other spelling (capitalised, padded, unrelated) is a wrong bit order and must be refused for unpack and pack
     for i, sp in enumerate(["Big", "BIG", "B", "Little", "LITTLE", "L", " big", "msb", "x", "1", "Big-endian"]):
@@ -170,6 +182,14 @@ def run(R: vlib.Run):
                     R.fail("order-spelling-dispatch", "an accepted bit-order spelling selects the wrong field order", {"bitorder": sp, "nbits": nbits, "got": got, "expected": exp})
             except Exception as e:  # noqa: BLE001
                 R.fail("order-spelling-dispatch", f"an accepted bit-order spelling raised {type(e).__name__}", {"bitorder": sp, "nbits": nbits})
+    for nb in (1, 2, 4):
+        R.case(("default-order", nb), regime="order_spelling")
+        exp = [f for b_ in probe.tolist() for f in fields(b_, nb, True)]
+        try:
+            if list(map(int, bits.unpack(probe, nb))) != exp or list(map(int, bits.pack(np.array(exp, dtype=np.uint8), nb))) != probe.tolist():
+                R.fail("default-bitorder-functions", "unpack / pack called without bitorder do not use 'big'", {"nbits": nb})
+        except Exception as e:  # noqa: BLE001
+            R.fail("default-bitorder-functions", f"unpack / pack without bitorder raised {type(e).__name__}", {"nbits": nb})
     for name, f in bad:
         R.case(("bad", name), regime="malformed")
         try:
@@ -223,7 +243,79 @@ Eval vm_compute in (length cases, idx).""")
             R.disagree("generated kernel model and compiled kernel differ", {"kind": k, "nbits": nb, "big": big, "in": inp, "impl": outv})
         nbad_total += len(badidx)
     R.extra_cov["correspondence_cases"] = len(allc)
+    _api_correspondence(R, bits)
     return R
+
+
+def _api_correspondence(R, bits):
+    """the regenerated wrappers (Gen/BitsApi.v: unpack_api / pack_api) against io/bits.py on valid and malformed calls: same refusals
+    (None = ValueError), same values, same effect on a caller's buffer"""
+    import re
+    R.need(["Gen/BitsApi.vo"])
+    rng = R.rng
+    cases = []
+    orders = ["big", "little", "b", "l", "bigendian", "lsb", "B", "Little", "x", "", "msb", " big"]
+    for _ in range(260 if R.tier == "quick" else 1500):
+        op = rng.choice(["unpack", "pack"])
+        nb = rng.choice([1, 2, 4, 1, 2, 4, 3, 8, 0])
+        order = rng.choice(orders)
+        u8 = rng.random() < 0.9
+        bf = 8 // nb if nb in (1, 2, 4) else 2
+        if op == "unpack":
+            n = rng.randrange(0, 5)
+            inp = [rng.randrange(256) for _ in range(n)]
+            right = n * bf
+        else:
+            n = rng.randrange(0, 5) * bf
+            inp = [rng.randrange(1 << nb if nb in (1, 2, 4) else 2) for _ in range(n)]
+            right = n // bf
+        bsel = rng.choice(["none", "none", "right", "right", "minus", "plus"])
+        bufl = None if bsel == "none" else [rng.randrange(256) for _ in range(max(0, right + {"right": 0, "minus": -1, "plus": 1}[bsel]))]
+        arr = np.array(inp, dtype=np.uint8 if u8 else np.int64)
+        buf = None if bufl is None else np.array(bufl, dtype=np.uint8)
+        case = {"op": op, "nbits": nb, "bitorder": order, "uint8": u8, "in": inp, "buffer": bufl}
+        R.tick(case)
+        try:
+            fn = bits.unpack if op == "unpack" else bits.pack
+            res = fn(arr, nb, bitorder=order) if buf is None else fn(arr, nb, buf, bitorder=order)
+            got = list(map(int, res))
+        except ValueError:
+            got = None
+        except Exception as e:  # noqa: BLE001
+            R.fail("api-raises", f"{op} raised {type(e).__name__} (only ValueError is a refusal)", case)
+            continue
+        cases.append((op, u8, nb, order, inp, bufl, got, case))
+
+    def b(x):
+        return "true" if x else "false"
+    rows = []
+    for op, u8, nb, order, inp, bufl, got, _ in cases:
+        first = "None" if order == "" else f"(Some {ord(order[0])})"
+        bufc = "None" if bufl is None else f"(Some ({vlib.zlist(bufl)}))"
+        gotc = "None" if got is None else f"(Some ({vlib.zlist(got)}))"
+        rows.append(f"({b(op == 'unpack')}, {b(u8)}, {nb}, {first}, {vlib.zlist(inp)}, {bufc}, {gotc})")
+    v = ["From Coq Require Import ZArith List Bool.", "Require Import SPP.Base.Rt SPP.Gen.Kernels SPP.Gen.BitsApi.", "Import ListNotations.", "Open Scope Z_scope.",
+         "Definition cases : list (bool * bool * Z * option Z * list Z * option (list Z) * option (list Z)) := [", ";\n".join(rows), "].",
+         "Definition lenz (l : list Z) : Z := Z.of_nat (length l).",
+         "Definition ok (c : bool * bool * Z * option Z * list Z * option (list Z) * option (list Z)) : bool :=",
+         "  let '(isu, u8, nb, first, inp, buf, got) := c in",
+         "  let b := match buf with None => None | Some l => Some (of_list l, lenz l) end in",
+         "  let r := if isu then unpack_api u8 nb first (of_list inp) (lenz inp) b else pack_api u8 nb first (of_list inp) (lenz inp) b in",
+         "  match r, got with",
+         "  | None, None => true",
+         "  | Some (a, sz), Some g => (sz =? lenz g) && list_eqb (to_list sz a) g",
+         "  | _, _ => false end.",
+         "Definition idx := map fst (filter (fun p => negb (ok (snd p))) (combine (seq 0 (length cases)) cases)).",
+         "Eval vm_compute in (length cases, idx)."]
+    rc, outp = vlib.coq_run("c03_api", "\n".join(v), timeout=300)
+    vals = vlib.parse_eval(outp)
+    if rc != 0 or not vals:
+        R.red.append("correspondence: Corr/c03_api did not evaluate (Gen/BitsApi.v incomplete?): " + outp[-300:])
+        return
+    nums = [int(z) for z in re.findall(r"(\d+)%nat", vals[0])]
+    R.extra_cov["api_calls_validated_against_model"] = nums[0] if nums else 0
+    for bi in nums[1:4]:
+        R.disagree("regenerated wrapper (Gen/BitsApi.v) and io/bits.py differ", cases[bi][-1])
 
 
 def scale(R: vlib.Run):
